@@ -137,5 +137,6 @@ Inductive gstmt :=
 (** utils.py WithContext._local_trace: `if next_trace := next_trace(frame, event, arg): return _local_trace`, `return None` *)
 Inductive wexp := WNextTrace | WLocalTrace | WNone.
 Inductive wstmt :=
+| WAssertNextTrace                       (* assert next_trace *)
 | WIfAssignNextTrace (a : list wstmt)    (* if next_trace := next_trace(frame, event, arg): a *)
 | WReturn (e : wexp).
